@@ -351,6 +351,122 @@ func kvIterRange(b db.Bucket, rg *db.Range, script string) string {
 	return strings.Join(out, " ")
 }
 
+// kvConc: W goroutines commit N small write transactions each (two records + a per-writer tip) through db.Update on a
+// database of their own, a reader goroutine keeps opening read transactions meanwhile; afterwards every committed record
+// must be present with exactly the value written and every tip must be the last one. Writers are serialised by the
+// driver (one write transaction at a time) - a commit that releases the writer lock before its batch is written lets the
+// next writer reset / refill the shared batch (seed C17-4): records are lost or carry another transaction's content.
+func kvConc(w, n int) string {
+	cwd, err := os.Getwd()
+	if err != nil {
+		return "err:cwd"
+	}
+	dir := filepath.Join(cwd, fmt.Sprintf("kvconc-%d-%d", os.Getpid(), time.Now().UnixNano()))
+	os.RemoveAll(dir)
+	d, err := db.CreateDB("leveldb", dir)
+	if err != nil {
+		return "err:create"
+	}
+	defer os.RemoveAll(dir)
+	defer d.Close()
+	if err := db.Update(d, func(tx db.DBTransaction) error { _, e := tx.CreateTopLevelBucket("c"); return e }); err != nil {
+		return "err:bucket"
+	}
+	key := func(g, i, j int) []byte { return []byte(fmt.Sprintf("k-%d-%06d-%d", g, i, j)) }
+	val := func(g, i, j int) []byte { return []byte(fmt.Sprintf("v-%d-%06d-%d-%s", g, i, j, strings.Repeat("x", (g+i+j)%40))) }
+	var wg sync.WaitGroup
+	errs := make(chan string, w+1)
+	stop := make(chan struct{})
+	for g := 0; g < w; g++ {
+		wg.Add(1)
+		go func(g int) {
+			defer wg.Done()
+			defer func() {
+				if r := recover(); r != nil {
+					errs <- fmt.Sprintf("PANIC:%v", r)
+				}
+			}()
+			for i := 0; i < n; i++ {
+				e := db.Update(d, func(tx db.DBTransaction) error {
+					b := tx.TopLevelBucket("c")
+					if b == nil {
+						return errors.New("no bucket")
+					}
+					for j := 0; j < 2; j++ {
+						if e := b.Put(key(g, i, j), val(g, i, j)); e != nil {
+							return e
+						}
+					}
+					return b.Put([]byte(fmt.Sprintf("tip-%d", g)), []byte(strconv.Itoa(i)))
+				})
+				if e != nil {
+					errs <- "err:update"
+					return
+				}
+			}
+		}(g)
+	}
+	rdone := make(chan struct{})
+	go func() {
+		defer close(rdone)
+		for {
+			select {
+			case <-stop:
+				return
+			default:
+			}
+			db.View(d, func(tx db.ReadTransaction) error {
+				if b := tx.TopLevelBucket("c"); b != nil {
+					b.Get([]byte("tip-0"))
+				}
+				return nil
+			})
+		}
+	}()
+	wg.Wait()
+	close(stop)
+	<-rdone
+	select {
+	case e := <-errs:
+		return e
+	default:
+	}
+	lost, wrong, okc := 0, 0, 0
+	db.View(d, func(tx db.ReadTransaction) error {
+		b := tx.TopLevelBucket("c")
+		if b == nil {
+			lost = w * n
+			return nil
+		}
+		for g := 0; g < w; g++ {
+			for i := 0; i < n; i++ {
+				good := true
+				for j := 0; j < 2; j++ {
+					v, _ := b.Get(key(g, i, j))
+					if v == nil {
+						good = false
+						lost++
+					} else if !bytes.Equal(v, val(g, i, j)) {
+						good = false
+						wrong++
+					}
+				}
+				if good {
+					okc++
+				}
+			}
+			if v, _ := b.Get([]byte(fmt.Sprintf("tip-%d", g))); string(v) != strconv.Itoa(n-1) {
+				wrong++
+			}
+		}
+		return nil
+	})
+	if lost > 0 || wrong > 0 {
+		return fmt.Sprintf("LOST %d WRONG %d of %d", lost, wrong, w*n)
+	}
+	return fmt.Sprintf("ok %d", okc)
+}
+
 func (x *kvExec) Exec(a []string) string {
 	if len(a) == 0 {
 		return "bad-op"
@@ -481,6 +597,16 @@ func (x *kvExec) Exec(a []string) string {
 			return "bad-op"
 		}
 		return x.rawDump()
+	case "conc":
+		if len(a) != 3 {
+			return "bad-op"
+		}
+		w, e1 := strconv.Atoi(a[1])
+		n, e2 := strconv.Atoi(a[2])
+		if e1 != nil || e2 != nil || w < 1 || w > 8 || n < 1 || n > 2000 {
+			return "bad-op"
+		}
+		return kvConc(w, n)
 	case "reopen":
 		if len(a) != 1 || x.w != nil || x.r != nil {
 			return "bad-op"
